@@ -133,6 +133,9 @@ type Opts struct {
 	Mempool func(a *app.LinkApplication) types.Mempool
 	// PartSize of the part sets blocks are stored with (0 = the default of the consensus parameters)
 	PartSize int
+	// Records switches the application's own audit log of balance movements on (types.SaveBalanceRecord + an open
+	// BalanceRecordStore); off by default, as in a node started without the option
+	Records bool
 }
 
 func (o Opts) partSize() int {
@@ -182,7 +185,8 @@ func NewStack(o Opts) (*Stack, error) {
 	s.BS.SetCrossState(s.Cross)
 	s.Utxo = utxo.NewUtxoStore(s.DBs["utxo"], s.DBs["utxoOutput"], s.DBs["utxoToken"])
 	s.Utxo.SetLogger(log.NewNopLogger())
-	s.BRS = blockchain.NewBalanceRecordStore(s.DBs["balanceRecord"], false)
+	s.BRS = blockchain.NewBalanceRecordStore(s.DBs["balanceRecord"], o.Records)
+	types.SaveBalanceRecord = o.Records
 	if fresh {
 		st, err := state.New(common.EmptyHash, state.NewKeyValueDBWithCache(s.DBs["state"], 128, o.IsTrie, 0))
 		if err != nil {
